@@ -6,8 +6,31 @@ Open Scope Q_scope.
 (* once a status has been collected -- by whichever side, 0 included -- wait() returns it at once:
    no kernel call (the answer does not depend on the kernel), no sleep, no time, state untouched *)
 Theorem popen_wait_collected : forall W E pid st tmo fuel t0 v,
+  bad_timeout tmo = false ->
   sub_rc st = Some v -> popen_wait W E pid st tmo fuel t0 = (RInt v, st, t0, []).
-Proof. intros W E pid st tmo fuel t0 v H. unfold popen_wait. rewrite H. reflexivity. Qed.
+Proof. intros W E pid st tmo fuel t0 v B H. unfold popen_wait, popen_wait_legacy. rewrite B, H. reflexivity. Qed.
+
+(* a negative timeout raises ValueError in EVERY state, collected or not, and touches nothing *)
+Theorem popen_negative_timeout : forall W E pid st t fuel t0,
+  t < 0 -> popen_wait W E pid st (Some t) fuel t0 = (RValueError, st, t0, []).
+Proof.
+  intros W E pid st t fuel t0 H. unfold popen_wait, bad_timeout.
+  destruct (Qle_bool 0 t) eqn:L; [apply Qle_bool_iff in L; exfalso; apply (Qlt_not_le _ _ H L) | reflexivity].
+Qed.
+
+(* the code before fix 4baf627 returned the collected status for wait(-1) *)
+Theorem popen_legacy_negative_refuted :
+  exists st v, sub_rc st = Some v /\
+    forall W E pid fuel t0, popen_wait_legacy W E pid st (Some (-1 # 1)) fuel t0 = (RInt v, st, t0, []).
+Proof. exists {| sub_rc := Some 0%Z; ps_obj := new_pobj |}, 0%Z. split; reflexivity. Qed.
+
+Lemma popen_wait_value_valid : forall W E pid st tmo fuel t0 r st' t' sl,
+  popen_wait W E pid st tmo fuel t0 = (r, st', t', sl) -> r <> RValueError ->
+  bad_timeout tmo = false /\ popen_wait_legacy W E pid st tmo fuel t0 = (r, st', t', sl).
+Proof.
+  intros W E pid st tmo fuel t0 r st' t' sl H NV. unfold popen_wait in H.
+  destruct (bad_timeout tmo); [inversion H; subst; contradiction | split; [reflexivity | exact H]].
+Qed.
 
 (* psutil's own wait collecting a status hands it to the subprocess side and to the psutil cache *)
 Theorem popen_wait_collects : forall W E pid st tmo fuel t0 z st' t' sl,
@@ -15,7 +38,9 @@ Theorem popen_wait_collects : forall W E pid st tmo fuel t0 z st' t' sl,
   popen_wait W E pid st tmo fuel t0 = (RInt z, st', t', sl) ->
   sub_rc st' = Some z /\ exitcode (ps_obj st') = Some (RInt z).
 Proof.
-  intros W E pid st tmo fuel t0 z st' t' sl N H. unfold popen_wait in H. rewrite N in H.
+  intros W E pid st tmo fuel t0 z st' t' sl N H.
+  destruct (popen_wait_value_valid _ _ _ _ _ _ _ _ _ _ _ H ltac:(discriminate)) as [_ HL]. clear H. rename HL into H.
+  unfold popen_wait_legacy in H. rewrite N in H.
   destruct (process_wait W E pid (ps_obj st) tmo fuel t0) as [[[r o'] t1] sl1] eqn:PW.
   inversion H. subst r st' t1 sl1. cbn [sub_rc ps_obj]. split; [reflexivity|].
   unfold process_wait in PW. destruct (bad_timeout tmo); [inversion PW|].
@@ -30,7 +55,9 @@ Theorem popen_wait_no_status : forall W E pid st tmo fuel t0 r st' t' sl,
   popen_wait W E pid st tmo fuel t0 = (r, st', t', sl) ->
   (forall z, r <> RInt z) -> sub_rc st' = None.
 Proof.
-  intros W E pid st tmo fuel t0 r st' t' sl N H NR. unfold popen_wait in H. rewrite N in H.
+  intros W E pid st tmo fuel t0 r st' t' sl N H NR. unfold popen_wait in H.
+  destruct (bad_timeout tmo); [inversion H; subst; exact N|].
+  unfold popen_wait_legacy in H. rewrite N in H.
   destruct (process_wait W E pid (ps_obj st) tmo fuel t0) as [[[r1 o'] t1] sl1].
   inversion H. subst. cbn [sub_rc]. destruct r; try reflexivity. exfalso. eapply NR. reflexivity.
 Qed.
@@ -48,8 +75,8 @@ Inductive pev :=
 | EvWait (W : nat -> Q -> bool -> wp) (E : Q -> bool) (tmo : option Q) (fuel : nat)
 | EvAdvance (dt : Q).
 
-(* every wait of the history: (result, instant before, instant after, sleeps) -- and the final state *)
-Fixpoint run_pev (pid : Z) (h : list pev) (st : popen) (t : Q) : list (wres * Q * Q * list Q) * popen :=
+(* every wait of the history: (timeout, result, instant before, instant after, sleeps) -- and the final state *)
+Fixpoint run_pev (pid : Z) (h : list pev) (st : popen) (t : Q) : list (option Q * wres * Q * Q * list Q) * popen :=
   match h with
   | [] => ([], st)
   | EvCollect z :: r => run_pev pid r (popen_collect st z) t
@@ -57,11 +84,13 @@ Fixpoint run_pev (pid : Z) (h : list pev) (st : popen) (t : Q) : list (wres * Q 
   | EvWait W E tmo fuel :: r =>
     let '(res, st', t', sl) := popen_wait W E pid st tmo fuel t in
     let '(l, fin) := run_pev pid r st' t' in
-    ((res, t, t', sl) :: l, fin)
+    ((tmo, res, t, t', sl) :: l, fin)
   end.
 
-Definition at_once (v : Z) (x : wres * Q * Q * list Q) : Prop :=
-  let '(r, t, t', sl) := x in r = RInt v /\ t' = t /\ sl = [].
+(* the collected status at once -- or ValueError at once when the timeout is negative *)
+Definition at_once (v : Z) (x : option Q * wres * Q * Q * list Q) : Prop :=
+  let '(tmo, r, t, t', sl) := x in
+  r = (if bad_timeout tmo then RValueError else RInt v) /\ t' = t /\ sl = [].
 
 Theorem popen_sticky : forall pid h st t v,
   sub_rc st = Some v ->
@@ -71,7 +100,9 @@ Proof.
   - cbn. split; [constructor | reflexivity].
   - destruct e as [z|W E tmo fuel|dt]; cbn [run_pev].
     + rewrite (popen_collect_some _ _ _ H). apply IH. exact H.
-    + rewrite (popen_wait_collected _ _ _ _ _ _ _ _ H).
+    + assert (PW : popen_wait W E pid st tmo fuel t = (if bad_timeout tmo then RValueError else RInt v, st, t, [])).
+      { unfold popen_wait, popen_wait_legacy. rewrite H. destruct (bad_timeout tmo); reflexivity. }
+      rewrite PW.
       destruct (IH st t v H) as [A B]. destruct (run_pev pid r st t) as [l fin]. cbn [fst snd] in *.
       split; [constructor; [cbn; auto | exact A] | exact B].
     + apply IH. exact H.
@@ -98,14 +129,15 @@ Proof.
   assert (N0 : sub_rc {| sub_rc := None; ps_obj := fresh c0 |} = None) by reflexivity.
   destruct (popen_wait_collects _ _ _ _ _ _ _ _ _ _ _ N0 H) as [S _].
   split.
-  - unfold popen_wait in H. cbn [sub_rc ps_obj] in H.
+  - destruct (popen_wait_value_valid _ _ _ _ _ _ _ _ _ _ _ H ltac:(discriminate)) as [_ HL].
+    unfold popen_wait_legacy in HL. cbn [sub_rc ps_obj] in HL. rename H into H0. rename HL into H.
     destruct (process_wait (k_waitpid p) (k_exists p) (p_pid p) (fresh c0) tmo fuel t0) as [[[r o'] t1] sl1] eqn:PW.
     inversion H. subst r. destruct (never_early_status _ _ _ _ _ _ _ _ _ WF PW) as (_ & _ & Z). exact Z.
   - intros h t. apply popen_sticky. exact S.
 Qed.
 
 (* status 0 is a status: the instance the seeded change broke *)
-Example popen_zero_is_a_status : forall W E pid tmo fuel t0 o,
+Example popen_zero_is_a_status : forall W E pid tmo fuel t0 o, bad_timeout tmo = false ->
   popen_wait W E pid {| sub_rc := Some 0%Z; ps_obj := o |} tmo fuel t0
   = (RInt 0, {| sub_rc := Some 0%Z; ps_obj := o |}, t0, []).
-Proof. intros. apply popen_wait_collected. reflexivity. Qed.
+Proof. intros. apply popen_wait_collected; [assumption | reflexivity]. Qed.
